@@ -23,6 +23,10 @@ pub struct Case {
     /// None: Content-Length; Some(sizes): chunked with these chunk sizes (cycled); Some([]) = one single chunk
     pub chunked: Option<Vec<usize>>,
     pub key: bool,
+    /// a small request of the OTHER or the same limit class sent first on the same keep-alive connection
+    /// (0 = PUT /vmAgentLog, 1 = POST /machine/?comp=telemetrydata, 2 = GET, 3 = ordinary POST; 20 bytes of body where there is one)
+    #[serde(default)]
+    pub prelude: Option<u8>,
 }
 
 fn target_class() -> impl Strategy<Value = (String, String)> {
@@ -66,8 +70,9 @@ pub fn strategy(big_weight: u32) -> impl Strategy<Value = Case> {
         0u8..5,
         any::<bool>(),
         any::<bool>(),
+        prop::option::weighted(0.35, 0u8..4),
     )
-        .prop_map(|((method, target), (len, big), pattern, chunked, uid_sel, helper_sel, key, telemetry)| {
+        .prop_map(|((method, target), (len, big), pattern, chunked, uid_sel, helper_sel, key, telemetry, prelude)| {
             // the 100 MiB class only makes sense on the exempt pairs
             let (method, target) = if big {
                 if telemetry { ("POST".to_string(), "/machine/?comp=telemetrydata".to_string()) } else { ("PUT".to_string(), "/vmAgentLog".to_string()) }
@@ -75,11 +80,11 @@ pub fn strategy(big_weight: u32) -> impl Strategy<Value = Case> {
                 (method, target)
             };
             let chunked = if big { chunked.map(|_| vec![1 << 20]) } else { chunked };
-            Case { rec: Rec { uid_sel, helper_sel, is_root: uid_sel == 0, dest: DestSel::Imds }, method, target, len, pattern, chunked, key }
+            Case { rec: Rec { uid_sel, helper_sel, is_root: uid_sel == 0, dest: DestSel::Imds }, method, target, len, pattern, chunked, key, prelude: if big { None } else { prelude } }
         })
 }
 
-pub const RULE: &str = "generator: authorised attributed requests to IMDS; method/URL class in {non-exempt, PUT /vmAgentLog and POST /machine/?comp=telemetrydata in random letter case, near misses of the exemption (wrong method, extra query, trailing slash)}; body length in {0, 1, L-1, L, L+1, L+4096, 2L, L +/- 64, random} for L = 100 KiB and, on the exempt pairs, {L'-1, L', L'+1} for L' = 100 MiB (about 1% of the cases in the quick tier); declared by Content-Length or undeclared (chunked: one single chunk, generated chunk sizes, one chunk of L or L+1). The client writes the body from a second thread while the first waits for the response, so an early refusal is seen. oracle: limit_ref(method, target) from the statement; length > limit => status 4xx and zero body bytes relayed (no request recorded at the mock); length <= limit => exactly one request at the mock whose de-framed body has the same length and content, status 200. non-trivial: length within +/- 1 of a limit, or chunked above the limit; distinct by hash of the case.";
+pub const RULE: &str = "generator: authorised attributed requests to IMDS; method/URL class in {non-exempt, PUT /vmAgentLog and POST /machine/?comp=telemetrydata in random letter case, near misses of the exemption (wrong method, extra query, trailing slash)}; body length in {0, 1, L-1, L, L+1, L+4096, 2L, L +/- 64, random} for L = 100 KiB and, on the exempt pairs, {L'-1, L', L'+1} for L' = 100 MiB (about 1% of the cases in the quick tier); declared by Content-Length or undeclared (chunked: one single chunk, generated chunk sizes, one chunk of L or L+1). In 35% of the cases a small request (exempt upload, GET or ordinary POST) is sent and answered first on the same keep-alive connection, so that the limit class of the connection's first request differs from that of the request under test. The client writes the body from a second thread while the first waits for the response, so an early refusal is seen. oracle: limit_ref(method, target) from the statement; length > limit => status 4xx and zero body bytes relayed (no request recorded at the mock); length <= limit => exactly one request at the mock whose de-framed body has the same length and content, status 200. non-trivial: length within +/- 1 of a limit, or chunked above the limit; distinct by hash of the case.";
 
 pub fn body_bytes(len: usize, pattern: u8) -> Vec<u8> {
     let mut v = vec![0u8; len];
@@ -130,12 +135,36 @@ pub fn eval(rig: &Rig, case: &Case, stats: &mut Stats) -> Outcome {
         stats.nontrivial_hash(h64(case));
     }
 
-    let before = rig.mock.total_bytes();
     let _ = rig.mock.take_requests();
     let mut conn = match rig.open(Some(rig.entry_of(&case.rec)), 0) {
         Ok(c) => c,
         Err(e) => return Outcome::fail("rig:cannot-open-connection", e),
     };
+    if let Some(p) = case.prelude {
+        let (m, t, b): (&str, &str, &[u8]) = match p % 4 {
+            0 => ("PUT", "/vmAgentLog", b"01234567890123456789"),
+            1 => ("POST", "/machine/?comp=telemetrydata", b"01234567890123456789"),
+            2 => ("GET", "/metadata/instance?api-version=2021-02-01", b""),
+            _ => ("POST", "/upload", b"01234567890123456789"),
+        };
+        stats.class(if p % 4 < 2 { "prelude:exempt-upload-first-on-the-connection" } else { "prelude:ordinary-request-first-on-the-connection" });
+        let mut hs: Vec<(String, Vec<u8>)> = vec![("Host".into(), b"169.254.169.254".to_vec()), ("Metadata".into(), b"true".to_vec())];
+        if !b.is_empty() {
+            hs.push(("Content-Length".into(), b.len().to_string().into_bytes()));
+        }
+        let mut wire = crate::rawhttp::request_head(m, t, &hs);
+        wire.extend_from_slice(b);
+        if let Err(e) = conn.send(&wire) {
+            return Outcome::fail("rig:prelude-send-failed", e.to_string());
+        }
+        match conn.read(m, Duration::from_secs(30)) {
+            Ok(r) if r.status == 200 => {}
+            Ok(r) => return Outcome::fail("limit:body-within-limit-refused", format!("prelude {} {} with {} bytes: status {}", m, t, b.len(), r.status)),
+            Err(e) => return Outcome::fail("limit:no-response", format!("prelude {} {}: {:?}", m, t, e)),
+        }
+        let _ = rig.mock.take_requests();
+    }
+    let before = rig.mock.total_bytes();
     let mut wstream = match conn.stream.try_clone() {
         Ok(s) => s,
         Err(e) => return Outcome::fail("rig:cannot-clone-stream", e.to_string()),
@@ -151,7 +180,7 @@ pub fn eval(rig: &Rig, case: &Case, stats: &mut Stats) -> Outcome {
             }
             let _ = wstream.flush();
         });
-        let r = conn.read(&case.method, Duration::from_secs(120));
+        let r = conn.read(&case.method, Duration::from_secs(if case.len > 4 * 1024 * 1024 { 120 } else { 25 }));
         let _ = conn.stream.shutdown(std::net::Shutdown::Both);
         let _ = w.join();
         r
